@@ -41,30 +41,30 @@ type SIntWidths struct {
 }
 
 type SFloats struct {
-	F64  float64 `vgirpc:"f64"`
-	F32  float32 `vgirpc:"f32"`
-	T32  float64 `vgirpc:"t32,float32"`
+	F64  float64  `vgirpc:"f64"`
+	F32  float32  `vgirpc:"f32"`
+	T32  float64  `vgirpc:"t32,float32"`
 	PF64 *float64 `vgirpc:"pf64"`
 }
 
 type SStrings struct {
-	S    string `vgirpc:"s"`
-	L    string `vgirpc:"l,large_string"`
-	E    Status `vgirpc:"e,enum"`
-	D    string `vgirpc:"d,dict_string"`
-	Dec  string `vgirpc:"dec,decimal"`
+	S    string  `vgirpc:"s"`
+	L    string  `vgirpc:"l,large_string"`
+	E    Status  `vgirpc:"e,enum"`
+	D    string  `vgirpc:"d,dict_string"`
+	Dec  string  `vgirpc:"dec,decimal"`
 	PS   *string `vgirpc:"ps"`
 	PE   *Status `vgirpc:"pe,enum"`
 	PDec *string `vgirpc:"pdec,decimal"`
 }
 
 type SBinaries struct {
-	B   []byte  `vgirpc:"b"`
-	LB  []byte  `vgirpc:"lb,large_binary"`
-	F8  []byte  `vgirpc:"f8,fixed_binary[8]"`
-	F1  []byte  `vgirpc:"f1,fixed_binary[1]"`
-	PB  *[]byte `vgirpc:"pb"`
-	NB  []byte  `vgirpc:"nb,nullable"`
+	B  []byte  `vgirpc:"b"`
+	LB []byte  `vgirpc:"lb,large_binary"`
+	F8 []byte  `vgirpc:"f8,fixed_binary[8]"`
+	F1 []byte  `vgirpc:"f1,fixed_binary[1]"`
+	PB *[]byte `vgirpc:"pb"`
+	NB []byte  `vgirpc:"nb,nullable"`
 }
 
 type STemporal struct {
@@ -84,14 +84,14 @@ type STemporalPtr struct {
 }
 
 type SNullablePrims struct {
-	S *string  `vgirpc:"s"`
-	I *int64   `vgirpc:"i"`
-	F *float64 `vgirpc:"f"`
-	B *bool    `vgirpc:"b"`
-	N int64    `vgirpc:"n,nullable"`
-	T string   `vgirpc:"t,nullable"`
-	I32 *int32 `vgirpc:"i32"`
-	U16 *uint16 `vgirpc:"u16"`
+	S   *string  `vgirpc:"s"`
+	I   *int64   `vgirpc:"i"`
+	F   *float64 `vgirpc:"f"`
+	B   *bool    `vgirpc:"b"`
+	N   int64    `vgirpc:"n,nullable"`
+	T   string   `vgirpc:"t,nullable"`
+	I32 *int32   `vgirpc:"i32"`
+	U16 *uint16  `vgirpc:"u16"`
 }
 
 type SLists struct {
@@ -108,15 +108,15 @@ type SLists struct {
 }
 
 type SListElems struct {
-	LB   [][]byte        `vgirpc:"lb,elem=large_binary"`
-	LS   []string        `vgirpc:"ls,elem=large_string"`
-	I32  []int64         `vgirpc:"i32,elem=int32"`
-	TS   []time.Time     `vgirpc:"ts,elem=timestamp"`
-	DT   []time.Time     `vgirpc:"dt,elem=date"`
-	Dec  []string        `vgirpc:"dec,elem=decimal"`
-	En   []string        `vgirpc:"en,elem=enum"`
-	Dur  []time.Duration `vgirpc:"dur,elem=duration"`
-	Fix  [][]byte        `vgirpc:"fix,elem=fixed_binary[4]"`
+	LB  [][]byte        `vgirpc:"lb,elem=large_binary"`
+	LS  []string        `vgirpc:"ls,elem=large_string"`
+	I32 []int64         `vgirpc:"i32,elem=int32"`
+	TS  []time.Time     `vgirpc:"ts,elem=timestamp"`
+	DT  []time.Time     `vgirpc:"dt,elem=date"`
+	Dec []string        `vgirpc:"dec,elem=decimal"`
+	En  []string        `vgirpc:"en,elem=enum"`
+	Dur []time.Duration `vgirpc:"dur,elem=duration"`
+	Fix [][]byte        `vgirpc:"fix,elem=fixed_binary[4]"`
 }
 
 type SMaps struct {
@@ -131,13 +131,13 @@ type SMaps struct {
 }
 
 type SInner struct {
-	Format   string  `vgirpc:"format"`
-	FilePath string  `vgirpc:"file_path"`
-	Expected []byte  `vgirpc:"expected_schema"`
-	Opt      *int64  `vgirpc:"opt"`
-	Kind     Status  `vgirpc:"kind,enum"`
+	Format   string    `vgirpc:"format"`
+	FilePath string    `vgirpc:"file_path"`
+	Expected []byte    `vgirpc:"expected_schema"`
+	Opt      *int64    `vgirpc:"opt"`
+	Kind     Status    `vgirpc:"kind,enum"`
 	When     time.Time `vgirpc:"when,timestamp_utc"`
-	Tags     []string `vgirpc:"tags"`
+	Tags     []string  `vgirpc:"tags"`
 }
 
 type SOuter struct {
@@ -164,10 +164,10 @@ type SNest3 struct {
 type SEmpty struct{}
 
 type SUntagged struct {
-	A     int64 `vgirpc:"a"`
-	Skip  string
-	Dash  int64 `vgirpc:"-"`
-	B     string `vgirpc:"b"`
+	A    int64 `vgirpc:"a"`
+	Skip string
+	Dash int64  `vgirpc:"-"`
+	B    string `vgirpc:"b"`
 }
 
 // Shapes next to the reserved wrapped-request shape, all inside the C07 quantifier.
